@@ -379,6 +379,9 @@ def evaluate_arithmetic(op, lval, rval):
         return lval
     if isinstance(rval, error.XLError):
         return rval
+    if isinstance(lval, list) and len(lval) == 1 and isinstance(rval, list) and len(rval) > 1:
+        # a one-item array acts as its item on the right ({1;2}+{1}): on the left as well
+        lval = lval[0]
     if isinstance(lval, list):
         return OPERATOR_DICT[op](ExcelArrayOps(lval), rval)
     if isinstance(rval, list):
